@@ -37,7 +37,8 @@ RULES = {
     "R4-step-size": "var' == var * exp(min(0.6, log_step_size_update))^2",
     "R7-covariance-form": "cov' == scalar * cov + c * outer(p, p) + c' * X^T diag(w) X [- c'' * Y^T diag(w) Y]: every added term is symmetric by construction, and the negative (active) quadratic form is the positive one with the worst mu candidates in place of the best (same centre, same step-size scaling, same weights)",
     "R5-flat-set": "flat_params and set_params use nnx.state(net, nnx.Param) leaves in tree_leaves order; consecutive slices of prod(leaf.shape) reshaped to leaf.shape; nnx.update(net, state)",
-    "R6-cem": "elites == take(samples, top_k(fitness, n_elite).indices, axis=0); optimize_cem passes bounds (lb, ub) in order and updates from the fitness of the very samples it ranks",
+    "R6-cem": "elites == take(samples, top_k(fitness, n_elite).indices, axis=0); optimize_cem passes bounds (lb, ub) in order and updates from the fitness of the very samples it ranks; "
+              "cem_sample proposes Z * S + mean with |Z| <= T and T * S <= distance to either bound (or clips to (lb, ub)): a floor under S / a missing cap is a violation with a numeric witness (reading shared with C10)",
 }
 
 CM = "rl_blox.algorithm.cmaes."
@@ -65,6 +66,47 @@ def _evident(site, what, *values):
 def _undecided(ck, msg):
     """Record an undecided detail without abandoning the rest of the rule group (same channel as ck.guard)."""
     ck.incomplete.append(msg)
+
+
+def _is_tuple_record(repo, qual) -> bool:
+    """Is ``qual`` a record whose instances are tuples (typing.NamedTuple class / namedtuple(...) assignment)?  A dataclass is not:
+    it can be neither unpacked nor indexed by position."""
+    try:
+        node = repo.lookup(qual)[1]
+    except Exception:
+        return False
+    if isinstance(node, ast.ClassDef):
+        if any(isinstance(m, ast.FunctionDef) and m.name in ("__getitem__", "__iter__", "__len__") for m in node.body):
+            return False        # positional reads are redefined
+        return any((isinstance(b, ast.Name) and b.id == "NamedTuple") or (isinstance(b, ast.Attribute) and b.attr == "NamedTuple") for b in node.bases) and NF._record_fields(node) is not None
+    return isinstance(node, ast.Assign) and NF._record_fields(node) is not None
+
+
+class _NF16(NF):
+    """Normal forms in which a positional read of a tuple record that was built in reach is the constructor argument of that position:
+    `Rec(a, b)[1] == b`, `x, y = Rec(a, b)` binds x to a and y to b (the record is a value carrier between a helper and its caller,
+    exactly as its field reads `Rec(a, b).second` already are)."""
+
+    def _project(self, p, path):
+        for i in path:
+            m_ = self.meta.get(p.single_atom() or "", {}) if p.elems is None else {}
+            args = m_.get("args") or []
+            if isinstance(i, int) and not isinstance(i, bool) and m_.get("record") and len(args) == len(m_["record"]) and not m_.get("kws") \
+                    and -len(args) <= i < len(args) and _is_tuple_record(self.repo, m_.get("fn", "")):
+                p = args[i]
+            else:
+                p = super()._project(p, (i,))
+        return p
+
+    def _e_Subscript(self, e, sc, at, depth):
+        # rec[-1] of a tuple record built in reach: the position counted from the end
+        sl = e.slice
+        if isinstance(sl, ast.UnaryOp) and isinstance(sl.op, ast.USub) and isinstance(sl.operand, ast.Constant) and type(sl.operand.value) is int:
+            base = self.poly(e.value, sc, at, depth)
+            m_ = self.meta.get(base.single_atom() or "", {}) if base.elems is None else {}
+            if m_.get("record") and _is_tuple_record(self.repo, m_.get("fn", "")):
+                return self._project(base, (-sl.operand.value,))
+        return super()._e_Subscript(e, sc, at, depth)
 
 
 # ---- R1 ------------------------------------------------------------------------------------------------------------------------------------
@@ -1452,14 +1494,20 @@ def _root_definitions(cfg, name, at, depth=0):
 def r6_cem(ck, repo, nf):
     q = "rl_blox.blox.cross_entropy_method.cem_update"
     fn = repo.func(q)
-    nf6 = NF(repo, inline_depth=3)
+    nf6 = _NF16(repo, inline_depth=3)
     got = nf6.return_poly(q, _env(fn))
     ck.need(got.elems is not None and len(got.elems) == 2, f"{q}: must return (mean, var)")
     P = param_names(fn)
     ck.need(len(P) >= 6, f"{q}: signature changed")
     SM, FI, ME, VA, NE, AL = P[:6]
     sc6 = Scope(None, fn._module, _env(fn), q)
-    elite_specs = [f"jnp.take({SM}, jax.lax.top_k({FI}, {NE})[1], axis=0)", f"{SM}[jax.lax.top_k({FI}, {NE})[1]]", f"{SM}[jnp.argsort({FI})[-{NE}:]]", f"{SM}[jnp.argsort(-{FI})[:{NE}]]"]
+    # one selection, many spellings: the arguments of jax.lax.top_k(operand, k) bound by position or keyword; rows gathered by take(., axis=0) /
+    # S[I] / S[I, :] / S[I, ...]; the k largest by an ascending ranking cut at its end, a ranking of the negated values cut at its start, or
+    # a reversed ranking cut at its start (the mean / variance over the rows does not depend on their order)
+    def _selections(fit, argsorted):
+        idx = [f"jax.lax.top_k({fit}, {NE})[1]", f"jax.lax.top_k({fit}, k={NE})[1]", f"jax.lax.top_k(operand={fit}, k={NE})[1]"] + argsorted
+        return [t_.format(S=SM, I=i_) for i_ in idx for t_ in ("jnp.take({S}, {I}, axis=0)", "{S}[{I}]", "{S}[{I}, :]", "{S}[{I}, ...]")]
+    elite_specs = _selections(FI, [f"jnp.argsort({FI})[-{NE}:]", f"jnp.argsort(-{FI})[:{NE}]", f"jnp.argsort({FI})[::-1][:{NE}]"])
     okm = any(got.elems[0] == nf6.poly(parse_expr(f"{AL} * {ME} + (1.0 - {AL}) * jnp.mean({e}, axis=0)"), sc6, None) for e in elite_specs)
     okv = any(got.elems[1] == nf6.poly(parse_expr(f"{AL} * {VA} + (1.0 - {AL}) * jnp.var({e}, axis=0)"), sc6, None) for e in elite_specs)
     if okm and okv:
@@ -1468,7 +1516,7 @@ def r6_cem(ck, repo, nf):
         _evident(q, "the updated mean / variance", got.elems[0], got.elems[1])
         txt = got.elems[0].canon() + " " + got.elems[1].canon()
         # the n_elite candidates with the smallest fitness, in the same spellings
-        small_specs = [f"jnp.take({SM}, jax.lax.top_k(-{FI}, {NE})[1], axis=0)", f"{SM}[jax.lax.top_k(-{FI}, {NE})[1]]", f"{SM}[jnp.argsort({FI})[:{NE}]]", f"{SM}[jnp.argsort(-{FI})[-{NE}:]]"]
+        small_specs = _selections(f"-{FI}", [f"jnp.argsort({FI})[:{NE}]", f"jnp.argsort(-{FI})[-{NE}:]", f"jnp.argsort(-{FI})[::-1][:{NE}]"])
         smallest = any(got.elems[0] == nf6.poly(parse_expr(f"{AL} * {ME} + (1.0 - {AL}) * jnp.mean({e}, axis=0)"), sc6, None) for e in small_specs) \
             or any(got.elems[1] == nf6.poly(parse_expr(f"{AL} * {VA} + (1.0 - {AL}) * jnp.var({e}, axis=0)"), sc6, None) for e in small_specs) \
             or f"top_k(-{FI}" in txt or f"argsort({FI})[:{NE}]" in txt or f"argsort(-{FI})[-{NE}:]" in txt
@@ -1535,6 +1583,57 @@ def r6_cem(ck, repo, nf):
     from_sample = ranked == [sn.id]
     ok = same and from_sample
     ck.ob("R6-cem", q, "update-from-evaluated-samples", ok, f"`{short(fcall, 50)}`; `{short(uc, 70)}`", "" if ok else "the update must use the fitness of the very samples it ranks (the population drawn in this iteration)", loc(mi, uc))
+
+
+class _UnderRule:
+    """The checker handed to a reading that another property owns: its obligations enter this property's table under ``rule``."""
+
+    def __init__(self, ck, rule, prefix):
+        self._ck, self._rule, self._prefix = ck, rule, prefix
+
+    def ob(self, rule, site, key, ok, *rest, **kw):
+        return self._ck.ob(self._rule, site, self._prefix + key, ok, *rest, **kw)
+
+    def __getattr__(self, name):
+        return getattr(self._ck, name)
+
+
+class _NoEvidenceWhen(_UnderRule):
+    """The checker handed to a rule group whose code contains a form that the path evaluation does not read faithfully: a failed
+    comparison is then no evidence of a difference (undecided); a successful one stands."""
+
+    def __init__(self, ck, why):
+        self._ck, self._why = ck, why
+
+    def ob(self, rule, site, key, ok, *rest, **kw):
+        if not ok:
+            raise AnalysisError(f"{site}: {rule}/{key} differs, but {self._why} (unrecognised form)")
+        return self._ck.ob(rule, site, key, ok, *rest, **kw)
+
+
+def _starred_targets(repo, prefix):
+    """Assignments `a, *rest = value` in the routines of a module: the path evaluation binds `rest` to one component of the value instead
+    of the list of the remaining ones, so values that flow through it are misread."""
+    out = []
+    for qual, f2, _mi in repo.all_functions():
+        if qual.startswith(prefix):
+            for n in ast.walk(f2):
+                tgs = n.targets if isinstance(n, ast.Assign) else [n.target] if isinstance(n, (ast.For, ast.AnnAssign)) else []
+                if any(isinstance(t, ast.Starred) for tg in tgs for t in ast.walk(tg)):
+                    out.append(f"{qual}: `{short(n, 50)}`")
+    return out
+
+
+def r6_cem_proposal(ck, repo, nf):
+    """Every candidate that cem_sample proposes lies in [lb, ub] for a mean inside the box: candidates = Z * S + mean with |Z| <= T and
+    S capped by c * (distance to either bound), T * c <= 1 - or an outermost clip to (lb, ub).  A sampling spread with a floor / without such
+    a cap is a violation only with a numeric witness (lb, ub, mean, var) for which |Z| * S exceeds the distance.  One statement in two
+    properties (C10 R4-cem-proposal): the reading is C10's, so the two checks cannot disagree."""
+    from . import c10
+    reading, nfc = getattr(c10, "_cem_sample", None), getattr(c10, "_NF", None)
+    if reading is None or nfc is None:
+        return          # the shared reading moved: the statement stays decided by C10
+    reading(_UnderRule(ck, "R6-cem", "proposal-"), repo, nfc(repo, inline_depth=3), "rl_blox.blox.cross_entropy_method.cem_sample")
 
 
 # ---- R2: non-finite fitness (the NaN world of the incumbent table) ----------------------------------------------------------------------------
@@ -1674,16 +1773,23 @@ def r2_nan_candidate(ck, repo, nf):
 
 
 def run(ck, repo: Repo, tier: str):
-    nf = NF(repo, inline_depth=2)
-    ck.guard(r1_weights, ck, repo, nf)
-    ck.guard(r2_feedback_table, ck, repo, nf)
-    ck.guard(r2_handed_out, ck, repo, nf)
-    ck.guard(r2_nan_candidate, ck, repo, nf)
-    ck.guard(r2_train_loop, ck, repo, nf)
-    ck.guard(r34_update, ck, repo, nf)
-    ck.guard(r7_covariance, ck, repo, nf)
+    nf = _NF16(repo, inline_depth=2)
+    ck0 = ck
+    st = _starred_targets(repo, CM)
+    if st:
+        # starred unpacking in the module: the path evaluation misreads what flows through it - no violation is concluded from its values
+        ck = _NoEvidenceWhen(ck0, f"the starred unpacking {st[0]} is not read")
+    ck0.guard(r1_weights, ck, repo, nf)
+    ck0.guard(r2_feedback_table, ck, repo, nf)
+    ck0.guard(r2_handed_out, ck, repo, nf)
+    ck0.guard(r2_nan_candidate, ck, repo, nf)
+    ck0.guard(r2_train_loop, ck, repo, nf)
+    ck0.guard(r34_update, ck, repo, nf)
+    ck0.guard(r7_covariance, ck, repo, nf)
+    ck = ck0
     ck.guard(r5_flat_set, ck, repo, nf)
     ck.guard(r6_cem, ck, repo, nf)
+    ck.guard(r6_cem_proposal, ck, repo, nf)
 
 
 _C, _X = "rl_blox/algorithm/cmaes.py", "rl_blox/blox/cross_entropy_method.py"
@@ -1740,6 +1846,16 @@ MUTANTS = [
     {"id": "c16-train-projects-handed-out", "file": _C, "rule": "R2", "edits": [("    if config.bounds is not None:\n        samples = jnp.clip(samples, config.bounds[:, 0], config.bounds[:, 1])\n", ""),
         ("        set_params(policy, get_next_parameters(config, state, population))", "        proposal = get_next_parameters(config, state, population)\n        set_params(policy, jnp.minimum(jnp.maximum(proposal, config.bounds[:, 0]), config.bounds[:, 1]))")]},
     {"id": "c16-incumbent-params-swapped-projection", "file": _C, "rule": "R2", "find": "        state.best_params = population.samples[k]", "replace": "        state.best_params = population.samples[k]\n        if config.bounds is not None:\n            state.best_params = population.samples[k - 1]"},
+    # a tuple record that carries the ranking and the selection from a helper to the update is read through (positional reads / unpacking
+    # of the constructor): the selection it carries is judged like an inline one
+    {"id": "c16-record-carrier-selects-worst", "file": _C, "rule": "R3", "edits": [("from collections import namedtuple\n", "from collections import namedtuple\nfrom typing import NamedTuple\n"),
+        ("def update_search_distribution(\n", "class _Ranked(NamedTuple):\n    order: jnp.ndarray\n    chosen: jnp.ndarray\n\n\ndef _rank(rows, values, count):\n    order = jnp.argsort(values)\n    return _Ranked(order, rows[order[-count:]])\n\n\ndef update_search_distribution(\n"),
+        ("    ranking = jnp.argsort(fitness, axis=0)\n    update_samples = samples[ranking[: config.mu]]\n", "    ranking, update_samples = _rank(samples, fitness, config.mu)\n")]},
+    {"id": "c16-cem-worst-elites-keyword-k", "file": _X, "rule": "R6", "edits": [("    _, top_k = jax.lax.top_k(fitness, n_elite)\n    elites = jnp.take(samples, top_k, axis=0)\n", "    chosen = jax.lax.top_k(-fitness, k=n_elite)[1]\n    elites = samples[chosen]\n")]},
+    # the proposal stays in the box: the spread is capped by the distance to either bound (reading shared with C10)
+    {"id": "c16-cem-spread-floor", "file": _X, "rule": "R6", "find": "    samples = (\n        jax.random.truncated_normal(", "replace": "    constrained_var = constrained_var + 1e-8\n    samples = (\n        jax.random.truncated_normal("},
+    {"id": "c16-cem-spread-cap-too-wide", "file": _X, "rule": "R6", "find": "(0.5 * ub_dist) ** 2", "replace": "(0.75 * ub_dist) ** 2"},
+    {"id": "c16-cem-reversed-ranking-of-negated-fitness", "file": _X, "rule": "R6", "edits": [("    _, top_k = jax.lax.top_k(fitness, n_elite)\n    elites = jnp.take(samples, top_k, axis=0)\n", "    order = jnp.argsort(-fitness)[::-1]\n    elites = samples[order[:n_elite], :]\n")]},
 ]
 BENIGN = [
     {"id": "c16-b-incumbent-min-best-first", "file": _C, "find": '    if fitness_k <= state.best_fitness:\n        state.best_fitness = fitness_k\n', "replace": '    previous_best = state.best_fitness\n    state.best_fitness = min(state.best_fitness, fitness_k)\n    if fitness_k <= previous_best:\n'},
@@ -1779,4 +1895,18 @@ BENIGN = [
     {"id": "c16-b-sample-helper-projection", "file": _C, "edits": [("def sample_population(config: CMAESConfig, state: CMAESState) -> jnp.ndarray:", "def _into_box(config, x):\n    if config.bounds is None:\n        return x\n    return jnp.clip(x, config.bounds[:, 0], config.bounds[:, 1])\n\n\ndef sample_population(config: CMAESConfig, state: CMAESState) -> jnp.ndarray:"),
         ("    if config.bounds is not None:\n        samples = jnp.clip(samples, config.bounds[:, 0], config.bounds[:, 1])\n    return samples", "    return _into_box(config, samples)"),
         ("    return population.samples[k]", "    return _into_box(config, population.samples[k])")]},
+    # value carriers between a helper and the update: NamedTuple unpacked / read by position, namedtuple(...) record; keyword `k` of top_k
+    {"id": "c16-b-record-carrier-unpacked", "file": _C, "edits": [("from collections import namedtuple\n", "from collections import namedtuple\nfrom typing import NamedTuple\n"),
+        ("def update_search_distribution(\n", "class _Ranked(NamedTuple):\n    order: jnp.ndarray\n    chosen: jnp.ndarray\n\n\ndef _rank(rows, values, count):\n    order = jnp.argsort(values)\n    return _Ranked(order, rows[order][:count])\n\n\ndef update_search_distribution(\n"),
+        ("    ranking = jnp.argsort(fitness, axis=0)\n    update_samples = samples[ranking[: config.mu]]\n", "    ranking, update_samples = _rank(samples, fitness, config.mu)\n")]},
+    {"id": "c16-b-record-carrier-indexed", "file": _C, "edits": [("def update_search_distribution(\n", "_Ranked = namedtuple(\"_Ranked\", [\"order\", \"chosen\"])\n\n\ndef update_search_distribution(\n"),
+        ("    ranking = jnp.argsort(fitness, axis=0)\n    update_samples = samples[ranking[: config.mu]]\n", "    order = jnp.argsort(fitness, axis=0)\n    picked = _Ranked(chosen=samples[order[: config.mu]], order=order)\n    ranking = picked[0]\n    update_samples = picked[-1]\n")]},
+    {"id": "c16-b-cem-top-k-keyword", "file": _X, "edits": [("    _, top_k = jax.lax.top_k(fitness, n_elite)\n    elites = jnp.take(samples, top_k, axis=0)\n", "    chosen = jax.lax.top_k(fitness, k=n_elite)[1]\n    elites = samples[chosen]\n")]},
+    {"id": "c16-b-cem-spread-std-form", "file": _X, "edits": [("    constrained_var = jnp.minimum(\n        jnp.minimum((0.5 * lb_dist) ** 2, (0.5 * ub_dist) ** 2),\n        var,\n    )\n", "    spread = jnp.minimum(jnp.minimum(lb_dist / 2.0, ub_dist / 2.0), jnp.sqrt(var))\n"),
+        ("        * jnp.sqrt(constrained_var)[jnp.newaxis]\n", "        * spread[None]\n")]},
+    {"id": "c16-b-cem-spread-tighter-cap", "file": _X, "find": "(0.5 * lb_dist) ** 2", "replace": "(0.25 * lb_dist) ** 2"},
+    # starred unpacking is not read by the path evaluation: no violation may be concluded from a value that flowed through it (undecided at worst; agreeing values stand)
+    {"id": "c16-b-star-unpack-beside-the-selection", "file": _C, "find": "    ranking = jnp.argsort(fitness, axis=0)\n", "replace": "    n_rows, *row_shape = samples.shape\n    ranking = jnp.argsort(fitness, axis=0)\n"},
+    {"id": "c16-b-cem-reversed-ranking", "file": _X, "edits": [("    _, top_k = jax.lax.top_k(fitness, n_elite)\n    elites = jnp.take(samples, top_k, axis=0)\n", "    order = jnp.argsort(fitness)[::-1]\n    elites = samples[order[:n_elite], :]\n")]},
+    {"id": "c16-b-cem-top-k-all-keywords", "file": _X, "edits": [("    _, top_k = jax.lax.top_k(fitness, n_elite)\n", "    _values, top_k = jax.lax.top_k(operand=fitness, k=n_elite)\n")]},
 ]
